@@ -20,6 +20,7 @@ RULE = (
     'Oracle: r = op.reduce() returns without raising within a bounded number of rule calls, declares the same '
     'structures, and r(x) == op(x) on all basis vectors (<=16 inputs) or 12 probe vectors, within the forward '
     'error bound. non-trivial = at least one n-ary or binary rule fired during reduce(); distinct = canonical JSON.'
+    ' Also: 0-d NumPy arrays (mutable) as scalar values, with the unreduced operator re-applied after reduce().'
 )
 ASSUMPTIONS = [
     'expressions of at most ~60 elements per structure; float32 (both modes) and float64 (x64 on) data',
